@@ -3,7 +3,10 @@ import itertools
 import hashlib
 import os.path
 import inspect
+import threading
+import types
 from importlib.machinery import SourceFileLoader
+from importlib.util import cache_from_source
 
 
 class CodeGenerator:
@@ -150,41 +153,46 @@ def unpack_impl(pkt, raw, offset, **k):
         # Full path for the new module
         module_pathname = os.path.join(folder, module_name + ".py")
 
-        # Try to import it first, if exists
+        # Try to import it first, if exists. A torn, stale or foreign file
+        # (SyntaxError, NameError, ...) is the same as no file at all.
         module = None
         if os.path.exists(module_pathname):
             try:
                 module = SourceFileLoader(module_name,
                                           module_pathname).load_module()
-            except ImportError:
-                pass
+            except Exception:
+                module = None
 
         # If no previously written module exists or its cooke does not match
-        # ours, recreate the file and reload it
+        # ours, recreate the file and use the code generated right now
         if not module or getattr(
             module, 'BISTURI_PACKET_COOKIE', None
         ) != cookie:
-            # Delete the compiled file (.pyc)
-            if module and hasattr(module, '__cached__'):
-                module_compiled_filename = module.__cached__
-            else:
-                module_compiled_filename = module_name + ".pyc"
-
-            if os.path.exists(module_compiled_filename):
-                os.remove(module_compiled_filename)
+            source = import_code + cookie_code + pack_code + unpack_code
 
             # creates folder to host our generated code
             os.makedirs(folder, exist_ok=True)
 
-            with open(module_pathname, 'w') as module_file:
-                module_file.write(import_code)
-                module_file.write(cookie_code)
-                module_file.write(pack_code)
-                module_file.write(unpack_code)
+            # Publish the file atomically: a crash or a concurrent definition
+            # of a same-named class leaves the old file or a complete new one
+            tmp_pathname = "%s.%i-%i.tmp" % (
+                module_pathname, os.getpid(), threading.get_ident()
+            )
+            with open(tmp_pathname, 'w') as module_file:
+                module_file.write(source)
+            os.replace(tmp_pathname, module_pathname)
 
-            # load it (again)
-            module = SourceFileLoader(module_name,
-                                      module_pathname).load_module()
+            # Delete the compiled file (.pyc), it may have gone already
+            try:
+                os.remove(cache_from_source(module_pathname))
+            except OSError:
+                pass
+
+            # Run exactly the code generated for this class, not whatever a
+            # stale .pyc or a concurrent writer may have left on disk
+            module = types.ModuleType(module_name)
+            module.__file__ = module_pathname
+            exec(compile(source, module_pathname, 'exec'), module.__dict__)
 
         from bisturi.packet import Packet
         if self.generate_for_pack and (
